@@ -15,6 +15,7 @@ import (
 
 	"glbverif/checker/core"
 	"glbverif/checker/props"
+	"glbverif/checker/sx"
 )
 
 func main() {
@@ -24,7 +25,31 @@ func main() {
 	verif := flag.String("verif", "/verif", "verification directory (evidence, known findings, seeded changes)")
 	replay := flag.String("replay", "", "replay file: re-run the property and show only the obligations listed there")
 	noEvidence := flag.Bool("scratch", false, "scratch run (self-validation child): print obligations, write nothing")
+	inlTest := flag.String("inline-all", "", "debug: build and verify the inlined copy of every module function; 'dump:<name>' prints one")
 	flag.Parse()
+	if *inlTest != "" {
+		p, err := core.Load(*repo, "", "")
+		if err != nil {
+			fmt.Println(err)
+			os.Exit(2)
+		}
+		n, exp := 0, 0
+		for _, fn := range p.ModuleFuncs() {
+			if fn.Parent() != nil {
+				continue
+			}
+			c := p.Inl(fn)
+			n++
+			if info := sx.InlineInfo(c); info != nil {
+				exp += len(info.Expanded)
+				if strings.HasPrefix(*inlTest, "dump:") && strings.Contains(fn.String(), strings.TrimPrefix(*inlTest, "dump:")) {
+					c.WriteTo(os.Stdout)
+				}
+			}
+		}
+		fmt.Printf("inlined %d functions, %d expansions, all verified\n", n, exp)
+		return
+	}
 	if os.Getenv("VERIF_TIER") != "" && *tier == "" {
 		*tier = os.Getenv("VERIF_TIER")
 	}
